@@ -21,7 +21,7 @@ variable {H : Type} [DecidableEq H] [Hasher H]
 
 /-! ### phase 1: `undoAdd` -/
 
-theorem fundoAdd_spec (cr : CR H) {m : MapPollard H} {T : Nat} {F : Forest H} {dels adds : List H}
+theorem fundoAdd_spec (nz : NZ H) {m : MapPollard H} {T : Nat} {F : Forest H} {dels adds : List H}
     {ts : List Pos} {ps : List H} (hyF : Hyg F) (hnd : dels.Nodup) (hc : F.canon dels = some (ts, ps))
     (hyp : Hyg ((F.delLeaves dels).addMany adds))
     {A : Pos → Option (Leaf H)} {C : H → Option Pos} (rep : Rep m T A C) (hfull : m.full = true)
@@ -35,7 +35,7 @@ theorem fundoAdd_spec (cr : CR H) {m : MapPollard H} {T : Nat} {F : Forest H} {d
   have hT := rep.T_le
   have hG : (F.delLeaves dels).numLeaves = F.numLeaves := numLeaves_delLeaves F dels
   have hyG : Hyg (F.delLeaves dels) := hyg_delLeaves hyF dels
-  obtain ⟨E, hgw, hEs, hEm⟩ := gwoer_spec cr rep.rows hT F hyF hnd hc adds.length hnl hn63 hfit nonZero hnz
+  obtain ⟨E, hgw, hEs, hEm⟩ := gwoer_spec nz rep.rows hT F hyF hnd hc adds.length hnl hn63 hfit nonZero hnz
   have hE : E = destroyed (F.delLeaves dels) adds.length := by
     apply sorted_ext hEs (destroyed_sorted _ _)
     intro h
@@ -45,12 +45,12 @@ theorem fundoAdd_spec (cr : CR H) {m : MapPollard H} {T : Nat} {F : Forest H} {d
     constructor
     · rintro ⟨hb, hd, hr⟩
       exact ⟨CalcComplete.mem_treeRows (by omega) hb,
-        (deadB_iff cr _ (by rw [hG]; omega) hyG (by rw [hG]; exact hb)).2 hd, hr⟩
+        (deadB_iff nz _ (by rw [hG]; omega) hyG (by rw [hG]; exact hb)).2 hd, hr⟩
     · rintro ⟨hrow, hd, hr⟩
       have hb := (mem_treeRows.1 hrow).2
       refine ⟨hb, ?_, hr⟩
-      exact (deadB_iff cr _ (by rw [hG]; omega) hyG (by rw [hG]; exact hb)).1 hd
-  obtain ⟨m', A', C', hrun, rep', hnl', hfl', fa'⟩ := funadd_loop cr (T := T) (F.delLeaves dels) adds
+      exact (deadB_iff nz _ (by rw [hG]; omega) hyG (by rw [hG]; exact hb)).1 hd
+  obtain ⟨m', A', C', hrun, rep', hnl', hfl', fa'⟩ := funadd_loop nz (T := T) (F.delLeaves dels) adds
     (by rw [hG]; exact hn63) (by rw [hG]; exact hfit) hyp rep hfull (by rw [hG]; exact hnl) fa
   rw [hG] at hnl'
   refine ⟨m', A', C', ?_, rep', hnl', hfl', fa'⟩
@@ -68,7 +68,7 @@ theorem fundoAdd_spec (cr : CR H) {m : MapPollard H} {T : Nat} {F : Forest H} {d
 /-! ### phase 2: `undoDeletion` -/
 
 open MapIngest SpecPlan in
-theorem fundoDeletion_spec (cr : CR H) {m : MapPollard H} {T : Nat} {F : Forest H} {dels : List H}
+theorem fundoDeletion_spec (nz : NZ H) {m : MapPollard H} {T : Nat} {F : Forest H} {dels : List H}
     {ts : List Pos} {ps : List H} (hyF : Hyg F) (hnd : dels.Nodup) (hc : F.canon dels = some (ts, ps))
     (hn63 : F.numLeaves < 2 ^ 63) (hfit : F.rows ≤ T)
     {A : Pos → Option (Leaf H)} {C : H → Option Pos} (rep : Rep m T A C) (hfull : m.full = true)
@@ -79,8 +79,8 @@ theorem fundoDeletion_spec (cr : CR H) {m : MapPollard H} {T : Nat} {F : Forest 
       FA A' C' F.nodes (fun _ => False) := by
   have hT := rep.T_le
   have hn64 : F.numLeaves < 2 ^ 64 := by omega
-  have Lw := laws_forest cr F hn64 hyF
-  obtain ⟨ds, hDT, hlive, hvalid, hdt⟩ := deTwin_spec_live cr F hn63 hyF hnd hc hT hfit
+  have Lw := laws_forest nz F hn64 hyF
+  obtain ⟨ds, hDT, hlive, hvalid, hdt⟩ := deTwin_spec_live nz F hn63 hyF hnd hc hT hfit
   have hmem : ∀ x, x ∈ ds.flatMap (leavesUnder F) ↔ x ∈ dels := by
     intro x
     simp only [List.mem_flatMap, mem_leavesUnder]
@@ -95,12 +95,12 @@ theorem fundoDeletion_spec (cr : CR H) {m : MapPollard H} {T : Nat} {F : Forest 
     exact FAH.of_fa fa (fun t x hm => leaf_not_deleted hn64 hm)
   have hPd : ∀ d ∈ ds, ∀ t x, (t, x, true) ∈ F.nodes → Anc d t → x ∈ dels :=
     fun d hd t x ht ha => hDT.sub d hd t x ht ha
-  obtain ⟨m2, hmd, rep2, hnl2, hfull2⟩ := funremove_rep cr ds F hn63 hyF hDT.node hDT.sep _ hPd m T A C rep hnl
+  obtain ⟨m2, hmd, rep2, hnl2, hfull2⟩ := funremove_rep nz ds F hn63 hyF hDT.node hDT.sep _ hPd m T A C rep hnl
     hfit hfull fa0
-  have inv2 := funremove_chain cr ds F hn64 hyF hDT.node hDT.sep _ hPd A C fa0
+  have inv2 := funremove_chain nz ds F hn64 hyF hDT.node hDT.sep _ hPd A C fa0
   -- the targets
   have hts : ∀ t x, (t, x, true) ∈ F.nodes → x ∈ dels → t ∈ ts :=
-    fun t x ht hx => (ts_iff cr hn64 hyF hc t).2 ⟨x, hx, ht⟩
+    fun t x ht hx => (ts_iff nz hn64 hyF hc t).2 ⟨x, hx, ht⟩
   -- the hole lies in the path set
   have hole_incl : ∀ q, (∃ d ∈ ds, holeOf F.nodes d q) → q ∈ pathSet F ts := by
     rintro q ⟨d, hd, hq, h0, f0, hm⟩
@@ -144,12 +144,12 @@ theorem fundoDeletion_spec (cr : CR H) {m : MapPollard H} {T : Nat} {F : Forest 
         obtain ⟨b, hb⟩ := pp_node hc hq
         have hout : ¬ ∃ d ∈ ds, holeOf F.nodes d q := fun hh => ((pp_iff q).1 hq).1 (hole_incl q hh)
         exact ⟨_, inv2.sto q _ b hb hout, rfl⟩)
-  have hrun := undoDeletion_run cr rep.rows hT hnl hn63 hfit hyF hnd hc hdt hmd rep2.rows hnl2 h4 rep2.rows rfl
+  have hrun := undoDeletion_run nz rep.rows hT hnl hn63 hfit hyF hnd hc hdt hmd rep2.rows hnl2 h4 rep2.rows rfl
   -- `putCalculated`
   have tsB : ∀ t ∈ ts, ∃ x, (t, x, true) ∈ F.nodes := fun t ht => ts_node hc ht
   have tsPos : ∀ t ∈ ts, F.posOf (tvF F t) = some t := by
     intro t ht
-    exact (posOf_iff F hn64 hyF cr).2 (ts_val cr hn64 hyF hc ht).2
+    exact (posOf_iff F hn64 hyF nz).2 (ts_val nz hn64 hyF hc ht).2
   obtain ⟨rep4, hf4, hn4⟩ := putCalculated_full
     (fun p => (ts.map (encP T)).contains p) (fun p => decide (p ∈ ts)) (tvF F) F.posOf
     (pathSet F ts) m2 _ C2 rep2 hfull2
@@ -162,14 +162,14 @@ theorem fundoDeletion_spec (cr : CR H) {m : MapPollard H} {T : Nat} {F : Forest 
     intro x
     constructor
     · rintro ⟨t, h1, h2, h3⟩
-      have := ts_val cr hn64 hyF hc (of_decide_eq_true h2)
+      have := ts_val nz hn64 hyF hc (of_decide_eq_true h2)
       rw [h3] at this
       exact this.1
     · intro h
       obtain ⟨_, hp, _, _⟩ := canon_spec hc
       obtain ⟨p, hpl⟩ := hp x h
       have hm := posOf_mem hpl
-      have hpts : p ∈ ts := (ts_iff cr hn64 hyF hc p).2 ⟨x, h, hm⟩
+      have hpts : p ∈ ts := (ts_iff nz hn64 hyF hc p).2 ⟨x, h, hm⟩
       refine ⟨p, targets_sub_pathSet tok hpts, decide_eq_true hpts, ?_⟩
       unfold tvF
       rw [SpecNodes.nodeAt_of_mem hm]; rfl
@@ -185,7 +185,7 @@ theorem fundoDeletion_spec (cr : CR H) {m : MapPollard H} {T : Nat} {F : Forest 
     constructor
     · intro hxd
       rw [if_pos ((hiff x).2 hxd)]
-      exact (posOf_iff F hn64 hyF cr).2 hm
+      exact (posOf_iff F hn64 hyF nz).2 hm
     · intro hxd
       rw [if_neg (fun h => hxd ((hiff x).1 h))]
 
@@ -229,7 +229,7 @@ theorem restoreRoots_noop {T : Nat} {A : Pos → Option (Leaf H)} {C : H → Opt
 /-- **`Undo` on a full forest restores `FInv` of the forest before the `Modify`** (C06 for the full
 map forest): `m` tracks `F.modify dels adds`; undoing the additions `adds` and the deletions `dels`
 (with the canonical proof of `dels` in `F` and the roots of `F`) gives a state that tracks `F` -/
-theorem finv_undo (cr : CR H) {m : MapPollard H} {F : Forest H} {dels adds : List H} {ts : List Pos} {ps : List H}
+theorem finv_undo (nz : NZ H) {m : MapPollard H} {F : Forest H} {dels adds : List H} {ts : List Pos} {ps : List H}
     (s : FInv m (F.modify dels adds)) (hyF : Hyg F) (hnd : dels.Nodup) (hc : F.canon dels = some (ts, ps))
     (nonZero : H) (hnz : nonZero ≠ (zero : H)) :
     ∃ m', MapPollard.undo nonZero (BitVec.ofNat 64 adds.length) (ts.map (encP F.rows)) ps dels F.roots m = (m', .ok ()) ∧
@@ -246,12 +246,12 @@ theorem finv_undo (cr : CR H) {m : MapPollard H} {F : Forest H} {dels adds : Lis
   have hFrows : F.rows ≤ m.totalRows.toNat :=
     Nat.le_trans (SpecView.forestRows_le (Nat.le_trans (Nat.le_add_right _ _) (SpecView.le_two_pow_forestRows _))) hfit
   have hnl : m.numLeaves = BitVec.ofNat 64 (F.numLeaves + adds.length) := by rw [← hFm]; exact s.n_eq
-  have Lw := laws_forest cr F hn64 hyF
+  have Lw := laws_forest nz F hn64 hyF
   -- phase 1
-  obtain ⟨m1, A1, C1, hrun1, rep1, hnl1, hfl1, fa1⟩ := fundoAdd_spec cr hyF hnd hc s.hyg rep s.full hnl hn63 hfit
+  obtain ⟨m1, A1, C1, hrun1, rep1, hnl1, hfl1, fa1⟩ := fundoAdd_spec nz hyF hnd hc s.hyg rep s.full hnl hn63 hfit
     fa nonZero hnz
   -- phase 2
-  obtain ⟨m2, A2, C2, hrun2, rep2, hnl2, hfl2, fa2⟩ := fundoDeletion_spec cr hyF hnd hc (by omega) hFrows rep1 hfl1
+  obtain ⟨m2, A2, C2, hrun2, rep2, hnl2, hfl2, fa2⟩ := fundoDeletion_spec nz hyF hnd hc (by omega) hFrows rep1 hfl1
     hnl1 fa1
   -- phase 3
   have hnT : F.numLeaves ≤ 2 ^ m.totalRows.toNat := by
